@@ -1,5 +1,7 @@
 import Verif.Model.Params
 import Verif.Spec.Ops
+import Verif.Model.Index
+import Verif.Spec.Index
 
 /- driver-side evaluation of `ops` / `params` queries (I/O glue; no theorem depends on it) -/
 
@@ -72,6 +74,13 @@ def evalQuery (f : Facts) (x : Params.Ext) (d q : J) : J :=
     .obj [("model", enc (Ops.operationForName f d (q.getStr "id"))), ("spec", enc (Spec.Ops.operationForName d (q.getStr "id")))]
   | "ids" => .obj [("model", mkStrs (sortStrs (Ops.operationIDs f d))), ("spec", mkStrs (sortStrs (Spec.Ops.ids d)))]
   | "methodPaths" => .obj [("model", mkStrs (sortStrs (Ops.operationMethodPaths f d))), ("spec", mkStrs (sortStrs (Spec.Ops.methodPaths d)))]
+  | "required" =>
+    -- `RequiredConsumes` / `RequiredProduces` / `RequiredSecuritySchemes`: the analyzer's views vs the unions of the Spec
+    let view := fun (j : J) (k : String) => mkStrs (sortStrs ((j.get? k).getD .null |> fun v => match v with | .arr xs => strs xs | _ => []))
+    let m := Index.toJson (Analyzer.analyze f d)
+    let s := Spec.Index.expected d
+    .obj [("model", .arr [view m "consumes", view m "produces", view m "auth"]),
+          ("spec", .arr [view s "consumes", view s "produces", view s "auth"])]
   | "consumesFor" | "producesFor" =>
     let k := if kind = "consumesFor" then "consumes" else "produces"
     match findOpByTag d ((q.get? "op").getD .null) with
